@@ -47,7 +47,7 @@ func srcOf(fset *token.FileSet, n ast.Node) string {
 // ------------------------------------------------------------------------------ IsPublicSymbol
 
 type ipsVal struct {
-	kind string // name | cond | parts | idxFirst | idxLast | parent (the store's parent store)
+	kind string // name | cond | parts | idxFirst | idxLast | parent (the store's parent store) | mapEntry (store.mapSymbols[<lean>])
 	lean string // Lean term (NameE for name, CondE for cond)
 }
 
@@ -125,6 +125,10 @@ func (c *ipsCtx) value(e ast.Expr, env map[string]ipsVal) (ipsVal, bool) {
 		if f, ok := recvField(e, c.recv); ok && f == "parent" {
 			return ipsVal{"parent", ""}, true
 		}
+		// <m>.key for `m := store.mapSymbols[<n>]`: the bucket key the map symbol named <n> is stored under
+		if v, ok := c.value(e.X, env); ok && v.kind == "mapEntry" && e.Sel.Name == "key" {
+			return ipsVal{"name", "(.mapKey " + v.lean + ")"}, true
+		}
 	case *ast.CallExpr:
 		// store.GetParentStore() (returns store.parent)
 		if sel, ok := e.Fun.(*ast.SelectorExpr); ok && isIdent(sel.X, c.recv) && sel.Sel.Name == "GetParentStore" && len(e.Args) == 0 {
@@ -149,6 +153,9 @@ func (c *ipsCtx) value(e ast.Expr, env map[string]ipsVal) (ipsVal, bool) {
 			return ipsVal{"cond", "(.segsMoreThan 1)"}, true
 		}
 	case *ast.IndexExpr:
+		if f, ok := recvField(e.X, c.recv); ok && f == "mapSymbols" {
+			return ipsVal{"mapEntry", c.name(e.Index, env)}, true
+		}
 		if v, ok := c.value(e.X, env); ok && v.kind == "parts" {
 			if n, ok := intLit(e.Index); ok && n == 0 {
 				return ipsVal{"name", ".firstSeg"}, true
@@ -219,6 +226,9 @@ func (c *ipsCtx) cond(e ast.Expr, env map[string]ipsVal) string {
 				if v, ok := c.value(x, env); ok && v.kind == "parent" {
 					return "(.not .hasParent)"
 				}
+				if v, ok := c.value(x, env); ok && v.kind == "mapEntry" {
+					return "(.not (.lookup .maps " + v.lean + "))"
+				}
 			}
 		case token.GTR, token.GEQ, token.NEQ:
 			// store.parent != nil
@@ -228,6 +238,9 @@ func (c *ipsCtx) cond(e ast.Expr, env map[string]ipsVal) string {
 				}
 				if v, ok := c.value(x, env); ok && v.kind == "parent" {
 					return ".hasParent"
+				}
+				if v, ok := c.value(x, env); ok && v.kind == "mapEntry" {
+					return "(.lookup .maps " + v.lean + ")"
 				}
 			}
 			n, okn := intLit(e.Y)
@@ -294,10 +307,21 @@ func (c *ipsCtx) assign(s *ast.AssignStmt, env map[string]ipsVal) bool {
 			return false
 		}
 		if l, ok := c.lookup(s.Rhs[0], env); ok {
-			if v, isId := s.Lhs[0].(*ast.Ident); !isId || v.Name != "_" {
+			v, isId := s.Lhs[0].(*ast.Ident)
+			if !isId {
 				return false
 			}
-			env[okId.Name] = ipsVal{"cond", l}
+			if v.Name != "_" {
+				// m, ok := store.mapSymbols[<n>]: the entry is only understood as the carrier of its `.key`
+				me, isEntry := c.value(s.Rhs[0], env)
+				if !isEntry || me.kind != "mapEntry" {
+					return false
+				}
+				env[v.Name] = me
+			}
+			if okId.Name != "_" {
+				env[okId.Name] = ipsVal{"cond", l}
+			}
 			return true
 		}
 	}
